@@ -13,7 +13,7 @@
 //   fcell_scan    content of a `c` element (f?, v?, is?), fnext_scan: the next formula cell of sheetData: position = `r` attribute else
 //                 the running cursor, cursor rules as for next_cell; a cell without `f` reports the empty string
 // Under contract (real text): read_formula (C14.formula_text_from_f, value_elements_carry_no_formula, unknown_cell_child_rejected,
-//   reader frame; C14.formula_cdata_text FAILS: registered finding), XlsxCellReader::next_formula (entry; C14.formula_cell_position,
+//   reader frame; CDATA sections are part of the text), XlsxCellReader::next_formula (entry; C14.formula_cell_position,
 //   C14,C15.formula_cell_text, C14.formula_cursor_update, C15.shared_group_table, C14.formula_end_of_sheet_data, C15.group_table_invariant_kept,
 //   labelled assertions offset_map_only_rectangle / offset_map_covers_rectangle / master_stored_under_its_shared_index and the loop
 //   invariants C15.offset_map_*; all implicit obligations -> C06, plus two allocation-proportion assertions that FAIL: registered),
@@ -102,7 +102,7 @@ pub ghost struct Ev {
     pub attrs: Seq<Attr>,  // attributes in document order (Start)
     pub raw: Seq<u8>,      // bytes of a Text event as written (still escaped)
     pub text: Seq<char>,   // content of a Text event after unescaping, literal content of a CData event
-    pub text_ok: bool,     // `unescape()` succeeds on this Text event
+    pub text_ok: bool,     // `unescape()` succeeds on this Text event / `decode()` succeeds on this CData event
 }
 /// index of the first ':' of s at or after i, s.len() if none
 pub open spec fn colon_at(s: Seq<u8>, i: int) -> int
@@ -201,6 +201,13 @@ impl<'a> BytesText<'a> {
 }
 impl<'a> BytesCData<'a> {
     pub uninterp spec fn ev(&self) -> Ev;
+    // TRUSTED: A-xml -- `decode` returns the literal content of the section in the document encoding (no entity resolution), or Err
+    #[verifier::external_body]
+    pub fn decode(&self) -> (r: Result<Cow<'a, str>, quick_xml::encoding::EncodingError>)
+        ensures
+            self.ev().text_ok ==> r is Ok && cow_ref(&r->Ok_0)@ == self.ev().text,
+            !self.ev().text_ok ==> r is Err,
+    { unimplemented!() }
 }
 // TRUSTED: A-xml -- `impl Deref<Target = [u8]>` of BytesText / BytesCData: the bytes of the event AS WRITTEN in the document (`raw`:
 // entity and character references NOT resolved).  Nothing relates `raw` to `text`.
@@ -358,7 +365,6 @@ pub open spec fn n_t() -> Seq<u8> { seq![0x74u8] }
 pub open spec fn n_si() -> Seq<u8> { seq![0x73u8, 0x69u8] }
 pub open spec fn n_shared() -> Seq<u8> { seq![0x73u8, 0x68u8, 0x61u8, 0x72u8, 0x65u8, 0x64u8] }
 
-pub open spec fn no_cdata(ev: Seq<Ev>, a: int, b: int) -> bool { forall|k: int| a <= k < b && 0 <= k < ev.len() ==> !(#[trigger] ev[k].kind is CData) }
 pub open spec fn ev_start(n: Seq<u8>) -> Ev { Ev { kind: EvKind::Start, name: n, attrs: Seq::empty(), raw: Seq::empty(), text: Seq::empty(), text_ok: true } }
 pub open spec fn ev_end(n: Seq<u8>) -> Ev { Ev { kind: EvKind::End, name: n, attrs: Seq::empty(), raw: Seq::empty(), text: Seq::empty(), text_ok: true } }
 pub open spec fn ev_text(t: Seq<char>) -> Ev { Ev { kind: EvKind::Text, name: Seq::empty(), attrs: Seq::empty(), raw: Seq::empty(), text: t, text_ok: true } }
@@ -423,6 +429,9 @@ pub open spec fn dim_of(s: Seq<u8>) -> Option<Dimensions> {
 //@@ item src/xlsx/mod.rs const MAX_COLUMNS
 //@@ item src/xlsx/mod.rs const MAX_ROWS
 // TRUSTED: contract of unit a1 (clauses C01,C15,C17.a1_decode / a1_zero_row_rejected / a1_malformed_rejected), PROVED there on the same text
+// callee of get_row_and_optional_column (checked digit accumulation; under contract in unit a1): present only so that the text compiles
+//@@ fn src/xlsx/mod.rs add_digit external_body
+//@@ end
 //@@ fn src/xlsx/mod.rs get_row_and_optional_column props=C14,C15 ret=r external_body
 //@@ sig
     ensures
@@ -525,7 +534,7 @@ pub open spec fn txt_scan(ev: Seq<Ev>, i: int, name: Seq<u8>, acc: Seq<char>) ->
         let e = ev[i];
         match e.kind {
             EvKind::Text => if e.text_ok { txt_scan(ev, i + 1, name, acc + e.text) } else { TxtRes { ok: false, text: acc, end: i } },
-            EvKind::CData => txt_scan(ev, i + 1, name, acc + e.text),
+            EvKind::CData => if e.text_ok { txt_scan(ev, i + 1, name, acc + e.text) } else { TxtRes { ok: false, text: acc, end: i } },
             EvKind::Other => txt_scan(ev, i + 1, name, acc),
             EvKind::End => if e.name =~= name { TxtRes { ok: true, text: acc, end: i } } else { TxtRes { ok: false, text: acc, end: i } },
             _ => TxtRes { ok: false, text: acc, end: i },
@@ -608,10 +617,6 @@ __n if __n == b"f" =>
         final(xml).events() == old(xml).events() && final(xml).pos() >= old(xml).pos(),
         //# C14.formula_text_from_f
         ({ let tx = txt_scan(old(xml).events(), old(xml).pos() as int, e.ev().name, Seq::empty());
-           e.ev().local() =~= n_f() && tx.ok && no_cdata(old(xml).events(), old(xml).pos() as int, tx.end) ==>
-               (r matches Ok(Some(s)) && s@ == tx.text) && final(xml).pos() == tx.end + 1 }),
-        //# C14.formula_cdata_text
-        ({ let tx = txt_scan(old(xml).events(), old(xml).pos() as int, e.ev().name, Seq::empty());
            e.ev().local() =~= n_f() && tx.ok ==>
                (r matches Ok(Some(s)) && s@ == tx.text) && final(xml).pos() == tx.end + 1 }),
         //# C14.value_elements_carry_no_formula
@@ -625,7 +630,7 @@ __n if __n == b"f" =>
     let ghost ev = xml.events();
     let ghost p0 = xml.pos() as int;
     let ghost tot = txt_scan(ev, p0, e.ev().name, Seq::empty());
-    let ghost good = tot.ok && no_cdata(ev, p0, tot.end);
+    let ghost good = tot.ok;
     proof {
         axiom_bytelits();
         assert(n_is().len() != n_v().len() && n_is().len() != n_f().len() && n_v()[0] != n_f()[0]);
@@ -637,7 +642,7 @@ __n if __n == b"f" =>
                 invariant
                     ev == old(xml).events(), p0 == old(xml).pos(), xml.events() == ev, xml.pos() >= p0,
                     tot == txt_scan(ev, p0, e.ev().name, Seq::empty()),
-                    good == (tot.ok && no_cdata(ev, p0, tot.end)),
+                    good == tot.ok,
                     good ==> xml.pos() <= tot.end + 1 && tot.end < ev.len() && ev[tot.end].kind is End,
                     e.ev().local() =~= n_f(), !(n_f() =~= n_is()), !(n_f() =~= n_v()),
                 ensures
@@ -645,7 +650,7 @@ __n if __n == b"f" =>
                 decreases xml.left(),
 //@@ before /match xml\.read_event_into\(&mut f_buf\)/
                 let ghost pos = xml.pos() as int;
-                proof { if good { lemma_txt_end(ev, pos, e.ev().name, f@); assert(!(ev[pos].kind is CData)); } }
+                proof { if good { lemma_txt_end(ev, pos, e.ev().name, f@); } }
 //@@ end
 
 // =====================================================================================================================
@@ -937,32 +942,32 @@ if (match \g<1> { Ok(Some(__t)) => __t == b"shared", _ => false }) {
         //# C14.formula_cell_position
         ({ let ev = old(self).g_events();
            let nx = fnext_scan(ev, old(self).g_pos() as int, old(self).g_cur(), old(self).g_groups());
-           nx.ok && nx.cell is Some && no_cdata(ev, old(self).g_pos() as int, nx.end) ==>
+           nx.ok && nx.cell is Some ==>
                (r matches Ok(Some(c)) && c.p() == nx.cell->Some_0.0) }),
         //# C14,C15.formula_cell_text
         ({ let ev = old(self).g_events();
            let nx = fnext_scan(ev, old(self).g_pos() as int, old(self).g_cur(), old(self).g_groups());
-           nx.ok && nx.cell is Some && no_cdata(ev, old(self).g_pos() as int, nx.end) ==>
+           nx.ok && nx.cell is Some ==>
                (r matches Ok(Some(c)) && c.v()@ == nx.cell->Some_0.1) }),
         //# C14.formula_cursor_update
         ({ let ev = old(self).g_events();
            let nx = fnext_scan(ev, old(self).g_pos() as int, old(self).g_cur(), old(self).g_groups());
-           nx.ok && no_cdata(ev, old(self).g_pos() as int, nx.end) ==>
+           nx.ok ==>
                final(self).g_cur() == nx.cur && final(self).g_pos() == nx.end + 1 }),
         //# C15.shared_group_table
         ({ let ev = old(self).g_events();
            let nx = fnext_scan(ev, old(self).g_pos() as int, old(self).g_cur(), old(self).g_groups());
-           nx.ok && no_cdata(ev, old(self).g_pos() as int, nx.end) ==> final(self).g_groups() == nx.groups }),
+           nx.ok ==> final(self).g_groups() == nx.groups }),
         //# C14.formula_end_of_sheet_data
         ({ let ev = old(self).g_events();
            let nx = fnext_scan(ev, old(self).g_pos() as int, old(self).g_cur(), old(self).g_groups());
-           nx.ok && nx.cell is None && no_cdata(ev, old(self).g_pos() as int, nx.end) ==> r matches Ok(None) }),
+           nx.ok && nx.cell is None ==> r matches Ok(None) }),
 //@@ body
         let ghost ev = self.xml.events();
         let ghost p0 = self.xml.pos() as int;
         let ghost g0 = gseq(self.formulas@);
         let ghost tot = fnext_scan(ev, p0, Cur { row: self.row_index, col: self.col_index }, g0);
-        let ghost good = tot.ok && no_cdata(ev, p0, tot.end);
+        let ghost good = tot.ok;
         proof {
             axiom_bytelits(); axiom_cell_key_model(); axiom_string_default();
             assert(n_row().len() != n_c().len() && n_row().len() != n_sheetdata().len() && n_c().len() != n_sheetdata().len());
@@ -974,7 +979,7 @@ if (match \g<1> { Ok(Some(__t)) => __t == b"shared", _ => false }) {
                 ev == old(self).xml.events(), p0 == old(self).xml.pos(), self.xml.events() == ev, self.xml.pos() >= p0,
                 g0 == gseq(old(self).formulas@),
                 tot == fnext_scan(ev, p0, Cur { row: old(self).row_index, col: old(self).col_index }, g0),
-                good == (tot.ok && no_cdata(ev, p0, tot.end)),
+                good == tot.ok,
                 b"row"@ == n_row(), b"c"@ == n_c(), b"sheetData"@ == n_sheetdata(), b"r"@ == n_r(), b"t"@ == n_t(), b"si"@ == n_si(),
                 b"ref"@ == n_ref(), b"shared"@ == n_shared(), b"v"@ == n_v(), b"is"@ == n_is(), b"f"@ == n_f(),
                 !(n_v() =~= n_f()), !(n_v() =~= n_is()), !(n_is() =~= n_f()),
@@ -1006,7 +1011,7 @@ if (match \g<1> { Ok(Some(__t)) => __t == b"shared", _ => false }) {
                         invariant
                             ev == old(self).xml.events(), p0 == old(self).xml.pos(), self.xml.events() == ev, self.xml.pos() > gp, gp >= p0, gp < ev.len(),
                             g0 == gseq(old(self).formulas@),
-                            good == (tot.ok && no_cdata(ev, p0, tot.end)),
+                            good == tot.ok,
                             tot == fnext_scan(ev, p0, Cur { row: old(self).row_index, col: old(self).col_index }, g0),
                             b"c"@ == n_c(), b"v"@ == n_v(), b"is"@ == n_is(), b"f"@ == n_f(), b"t"@ == n_t(), b"si"@ == n_si(),
                             b"ref"@ == n_ref(), b"shared"@ == n_shared(),
@@ -1061,7 +1066,6 @@ if (match \g<1> { Ok(Some(__t)) => __t == b"shared", _ => false }) {
                                             assert(p is Some);
                                             assert(fcell_scan(ev, tx.end + 1, pos, Some(p->Some_0.0), true, p->Some_0.1) == ctot);
                                             lemma_fcell_end(ev, tx.end + 1, pos, Some(p->Some_0.0), true, p->Some_0.1);
-                                            assert(no_cdata(ev, ipos + 1, tx.end));
                                         } else { assert(false); }
                                     }
                                 }
@@ -1223,7 +1227,7 @@ proof fn witness_master()
         let ev = seq![Ev { attrs: seq![w_attr(n_r(), seq![0x43u8, 0x31u8])], ..ev_start(n_c()) }, Ev { attrs: fa, ..ev_start(n_f()) },
                       ev_text("A1"@), ev_end(n_f()), ev_end(n_c())];
         let nx = fnext_scan(ev, 0, Cur { row: 0, col: 0 }, Seq::empty());
-        nx.ok && nx.cell == Some(((0u32, 2u32), "A1"@)) && nx.cur == (Cur { row: 0, col: 3 }) && nx.end == 4 && no_cdata(ev, 0, nx.end)
+        nx.ok && nx.cell == Some(((0u32, 2u32), "A1"@)) && nx.cur == (Cur { row: 0, col: 3 }) && nx.end == 4
             && nx.groups == seq![Some(GroupV { text: "A1"@, map: rect_map(w_dim(), (0u32, 2u32)) })] }),
 {
     let rr = seq![0x43u8, 0x31u8, 0x3au8, 0x44u8, 0x32u8];
